@@ -116,6 +116,15 @@ theorem intersect_lattice :
 theorem intersect_unlimited (r : Replication) : Replication.unlimited.intersect r = r := by
   cases r <;> rfl
 
+/-- Remark (not a finding: the requirement is documented as "only an upper bound" and the chain
+    order puts `Host` below every `Limited n`): `Host ∩ Limited 2 = Host`, and a `Host` block has one
+    replica per host — on three hosts that is 3 replicas, more than the `Limited 2` it was
+    intersected with. `intersect` is the meet of the chain `One < Host < Limited n < Unlimited`,
+    not of the replica counts. -/
+example : Replication.host.intersect (.limited 2) = .host ∧
+    ((blockInfo (.remote [⟨0, 1, 1⟩, ⟨1, 1, 1⟩, ⟨2, 1, 1⟩]) ⟨0, .host, false⟩).replicas.length = 3) := by
+  decide
+
 /-! ## Links -/
 
 /-- **C19 (non-forward links are all-to-all).** If the producer's strategy is not `OnlyOne` and
@@ -247,18 +256,23 @@ theorem no_collision (hosts : List Host) (links : List Link)
 
 /-! ## Independence -/
 
-/-- **C19 (same graph on every host).** The dump is a function of the configuration *without*
-    `host_id` and of the job: whatever host evaluates it gets the same value. (True by
-    construction of the model; that the real code agrees with this host-independent value on
-    every host is what the `graph` correspondence check establishes, host by host.) -/
-theorem graph_independent_of_host_id (cfg : Config) (job : Job) (hostId hostId' : Nat) :
+/-- **C19 (same graph on every host) — by construction, NOT a proof about the code.** The model's
+    dump is a function of the configuration *without* `host_id` and of the job, so this statement is
+    `rfl` on a constant function and carries no weight by itself. The claim "every host derives the
+    same graph" is carried by the correspondence check: the `graph` harness builds the same program
+    once per `host_id` on the real code and every host's dump must equal this single
+    host-independent value (and the oracle requires all hosts' dumps to be identical). -/
+theorem graph_independent_of_host_id_by_construction (cfg : Config) (job : Job) (hostId hostId' : Nat) :
     (fun (_ : Nat) => executionGraph cfg job) hostId = (fun (_ : Nat) => executionGraph cfg job) hostId' :=
   rfl
 
-/-- **C19 (independent of hash-map iteration order), links and addresses.** Permuting the order in
-    which the connections of the job graph are enumerated (`next_blocks.iter()` and the `Vec`s
-    inside) changes neither the sorted link list nor the address assignment. (Replica lists are
-    produced in host order by the code and by the model; the dump hook sorts what it prints.) -/
+/-- **C19 (independent of hash-map iteration order), job-graph edges.** Permuting the order in
+    which the connections of the JOB GRAPH are enumerated (`next_blocks.iter()` and the `Vec`s
+    inside) changes neither the sorted link list nor the address assignment. This theorem covers
+    permutations of job edges only; the enumeration order of the replicas inside a block is
+    `edge_links_independent_of_replica_order` below. What is not covered by a theorem: the order
+    of the entries inside `NetworkTopology.next/prev` (`End` sorts its senders, `Start` only counts
+    its producers) — the dump hook sorts what it prints. -/
 theorem graph_independent_of_map_order (cfg : Config) (infos : List BlockInfo)
     (edges edges' : List Edge) (h : edges.Perm edges') :
     sortLinks (allLinks infos edges) = sortLinks (allLinks infos edges') ∧
@@ -287,6 +301,55 @@ theorem graph_independent_of_map_order (cfg : Config) (infos : List BlockInfo)
       · simp [hd, hm.mp hd]
       · have hd' : d ∉ dedup ((allLinks infos edges').map demuxOf) := fun h => hd (hm.mpr h)
         simp [hd, hd']
+
+/-- the links of one job-graph edge when the producer replicas are enumerated in the order `ps`
+    and the consumer replicas in the order `cs` (`replicas.values().flatten()` iterates a hash map);
+    `sorted` in the fallback is `sort(cs)`, i.e. `to.replicas` whatever the order of `cs` -/
+def edgeLinksEnum (from_ to : BlockInfo) (fragile : Bool) (ps cs : List Coord) : List Link :=
+  ps.flatMap fun f =>
+    ((if orphan from_.onlyOne fragile cs f then
+        match to.replicas[from_.globalId f % cs.length]? with
+        | some t => [t]
+        | none => []
+      else []) ++
+      cs.filter (connects from_.onlyOne fragile cs.length f)).map fun t => ⟨f, t, fragile⟩
+
+theorem flatMap_perm_pointwise {α β : Type} (f g : α → List β) : ∀ l : List α,
+    (∀ a ∈ l, (f a).Perm (g a)) → (l.flatMap f).Perm (l.flatMap g) := by
+  intro l
+  induction l with
+  | nil => intro _; simp
+  | cons x xs ih =>
+    intro h
+    simp only [List.flatMap_cons]
+    exact (h x (by simp)).append (ih fun a ha => h a (by simp [ha]))
+
+/-- **C19 (independent of hash-map iteration order), replica enumeration.** Enumerating the
+    replicas of the producer block and of the consumer block in any order (the iteration order of
+    `SchedulerBlockInfo.replicas`) yields the same sorted links for the edge. -/
+theorem edge_links_independent_of_replica_order (from_ to : BlockInfo) (fragile : Bool)
+    (ps cs : List Coord) (hps : ps.Perm from_.replicas) (hcs : cs.Perm to.replicas) :
+    sortLinks (edgeLinksEnum from_ to fragile ps cs) = sortLinks (edgeLinks from_ to fragile) := by
+  apply mergeSort_key_eq_of_perm Link.key 7 Link.key_length (fun a b => Link.key_inj)
+  have hlen : cs.length = to.replicas.length := hcs.length_eq
+  have hany : ∀ f : Coord, cs.any (fun t => t.host == f.host && t.replica == f.replica) =
+      to.replicas.any (fun t => t.host == f.host && t.replica == f.replica) := by
+    intro f
+    rw [Bool.eq_iff_iff, List.any_eq_true, List.any_eq_true]
+    constructor
+    · rintro ⟨t, ht, h⟩; exact ⟨t, hcs.mem_iff.mp ht, h⟩
+    · rintro ⟨t, ht, h⟩; exact ⟨t, hcs.mem_iff.mpr ht, h⟩
+  have step1 : (edgeLinksEnum from_ to fragile ps cs).Perm
+      (ps.flatMap fun f => (consumers from_ to fragile f).map fun t => ⟨f, t, fragile⟩) := by
+    apply flatMap_perm_pointwise
+    intro f _
+    apply List.Perm.map
+    unfold consumers
+    have horph : orphan from_.onlyOne fragile cs f = orphan from_.onlyOne fragile to.replicas f := by
+      simp only [orphan, hlen, hany f]
+    rw [horph, hlen]
+    exact List.Perm.append_left _ (hcs.filter _)
+  exact step1.trans (List.Perm.flatMap_right _ hps)
 
 /-! ## Non-vacuity -/
 
